@@ -10,6 +10,7 @@ mod ctx;
 mod dump;
 mod elem;
 mod gen;
+mod groupmon;
 mod iterdrv;
 mod mapw;
 mod mapw_entry;
@@ -51,6 +52,8 @@ fn main() {
                 digests: args.iter().any(|a| a == "--digests"),
                 max_violations: arg(&args, "--max-violations").and_then(|s| s.parse().ok()).unwrap_or(3),
                 budget_s: arg(&args, "--budget-s").and_then(|s| s.parse().ok()).unwrap_or(0.0),
+                emit: arg(&args, "--emit").map(|s| s.to_string()),
+                batch: arg(&args, "--batch").map(|s| s.to_string()),
             };
             let code = runner::worker(opts);
             std::process::exit(code);
@@ -60,7 +63,14 @@ fn main() {
             let text = std::fs::read_to_string(path).expect("read scenario");
             let file: BTreeMap<String, serde_json::Value> = serde_json::from_str(&text).expect("parse scenario file");
             let sc: scenario::Scenario = serde_json::from_value(file.get("scenario").cloned().unwrap_or_else(|| serde_json::to_value(&file).unwrap())).expect("scenario");
-            let res = runner::replay(&sc);
+            let mut res = runner::replay(&sc);
+            // differential replay files carry the transcript recorded under the other back-end
+            if let (None, Some(want)) = (&res.violation, file.get("expect_transcript").and_then(|v| v.as_str())) {
+                let got = format!("{:016x}", res.transcript);
+                if got != want {
+                    res.violation = Some(scenario::Violation { class: "differential/transcript".into(), op_index: sc.ops.len().saturating_sub(1), op_kind: "Finish".into(), detail: format!("transcript {got} under group width {} differs from {want} recorded by the other back-end", hashbrown::verif::verif_group_width()) });
+                }
+            }
             match res.violation {
                 Some(v) => {
                     println!("VIOLATION-JSON {}", serde_json::to_string(&v).unwrap());
